@@ -73,7 +73,14 @@ def same_boundary(a, b):
 
 
 def maxbond(o):
-    return max(len(q) for q in o.qD)
+    return max([len(q) for q in o.qD] + [0])
+
+
+def nondeg(*objs):
+    """no bond of dimension 0 (such bonds arise only when an uninterpreted SVD kernel returns an all-zero spectrum for a
+    non-zero matrix, or for tol >= 1; NumPy's np.block / tensordot then raise on empty operands where the index formulas of the
+    model return empty tensors: outside the domain of the binary operations)"""
+    return all(len(q) >= 1 for o in objs for q in o.qD)
 
 
 def choose_op(rng, pool, allow_invalid=0.03):
@@ -96,18 +103,27 @@ def choose_op(rng, pool, allow_invalid=0.03):
                 qD = [[int(rng.integers(-1, 2))] * bl] + [[int(x) for x in rng.integers(-1, 2, size=int(rng.integers(1, 3)))] for _ in range(max(L - 1, 0))] \
                     + [[int(rng.integers(-1, 3))] * bl]
                 if L == 0 or (rng.random() < allow_invalid):
-                    qD = qD[:1] if rng.random() < 0.5 else []
+                    # (MPO(qd, [], fill) returns a degenerate object without any bond list in Python, the model rejects the
+                    # empty list: outside the domain; MPS(qd, [], fill) raises IndexError on both sides)
+                    qD = qD[:1] if (rng.random() < 0.5 or k == 17) else []
                 return {'h': 'new_mps' if k == 16 else 'new_mpo', 'qd': qd, 'qD': qD, 'fill': fill}
             if rng.random() < 0.5:
                 return {'h': 'identity', 'qd': qd, 'L': L, 'scale': [1, 2, -0.5, 1j][int(rng.integers(0, 4))]}
             from . import oglib
             from .props import c05
-            raw, Lg, charged = oglib.gen_layered_graph(rng, L=int(rng.integers(1, 4)))
+            for _try in range(8):
+                raw, Lg, charged = oglib.gen_layered_graph(rng, L=int(rng.integers(1, 4)))
+                # graphs whose only source / sink are the terminals (a dead end next to the end node passes is_consistent() but
+                # gives an MPO with a trailing bond of dimension 2, which the in-place algorithms do not accept)
+                if all((n[2] or n[0] == raw['term'][1]) and (n[1] or n[0] == raw['term'][0]) for n in raw['nodes']):
+                    break
+            else:
+                continue
             o5 = c05.mpo_op(raw, rng, charged, nid_map=False, d=2)
             return {'h': 'from_opgraph', 'graph': o5['graph'], 'qd': o5['qd'], 'opmap': o5['opmap']}
         if k in (19, 20) and idx_mps:
             i = int(rng.choice(idx_mps)); L = len(pool[i].A)
-            if L >= 2 or rng.random() < allow_invalid:
+            if nondeg(pool[i]) and (L >= 2 or rng.random() < allow_invalid):
                 return {'h': 'resplit', 'i': i, 'site': int(rng.integers(0, max(L - 1, 1))), 'distr': int(rng.integers(0, 3)),
                         'tol': float(rng.choice([0, 0, 0.25, 0.125]))}
         if k == 0 and idx_mps:
@@ -119,20 +135,20 @@ def choose_op(rng, pool, allow_invalid=0.03):
         if k == 4 and len(idx_mps) >= 1:
             i, j = int(rng.choice(idx_mps)), int(rng.choice(idx_mps))
             ok = len(pool[i].A) == len(pool[j].A) and same_boundary(pool[i], pool[j]) and maxbond(pool[i]) + maxbond(pool[j]) <= 8 and np.array_equal(pool[i].qd, pool[j].qd)
-            if ok or rng.random() < allow_invalid:
+            if nondeg(pool[i], pool[j]) and (ok or rng.random() < allow_invalid):
                 return {'h': 'add_mps', 'i': i, 'j': j, 'alpha': 1 if rng.random() < 0.5 else -1}
         if k == 5 and len(idx_mpo) >= 1:
             i, j = int(rng.choice(idx_mpo)), int(rng.choice(idx_mpo))
             ok = len(pool[i].A) == len(pool[j].A) and same_boundary(pool[i], pool[j]) and maxbond(pool[i]) + maxbond(pool[j]) <= 6 and np.array_equal(pool[i].qd, pool[j].qd)
-            if ok or rng.random() < allow_invalid:
+            if nondeg(pool[i], pool[j]) and (ok or rng.random() < allow_invalid):
                 return {'h': 'add_mpo', 'i': i, 'j': j, 'alpha': 1 if rng.random() < 0.5 else -1}
         if k == 6 and idx_mpo:
             i, j = int(rng.choice(idx_mpo)), int(rng.choice(idx_mpo))
-            if maxbond(pool[i]) * maxbond(pool[j]) <= 6 and ((len(pool[i].A) == len(pool[j].A) and np.array_equal(pool[i].qd, pool[j].qd)) or rng.random() < allow_invalid):
+            if nondeg(pool[i], pool[j]) and maxbond(pool[i]) * maxbond(pool[j]) <= 6 and ((len(pool[i].A) == len(pool[j].A) and np.array_equal(pool[i].qd, pool[j].qd)) or rng.random() < allow_invalid):
                 return {'h': 'mul_mpo', 'i': i, 'j': j}
         if k == 7 and idx_mpo and idx_mps:
             i, j = int(rng.choice(idx_mpo)), int(rng.choice(idx_mps))
-            if maxbond(pool[i]) * maxbond(pool[j]) <= 8 and ((len(pool[i].A) == len(pool[j].A) and np.array_equal(pool[i].qd, pool[j].qd)) or rng.random() < allow_invalid):
+            if nondeg(pool[i], pool[j]) and maxbond(pool[i]) * maxbond(pool[j]) <= 8 and ((len(pool[i].A) == len(pool[j].A) and np.array_equal(pool[i].qd, pool[j].qd)) or rng.random() < allow_invalid):
                 return {'h': 'apply', 'i': i, 'j': j}
         if k == 10 and len(pool) < 9:
             d = int(rng.integers(1, 3)); ns = int(rng.integers(1, 4))
@@ -168,9 +184,15 @@ INPLACE = ('ortho_mps', 'ortho_mpo', 'compress', 'zero_q', 'resplit') + INPLACE_
 
 def apply_op(pool, op, rec):
     """execute one op on the real objects (in place / appending); returns list of scalar outputs"""
+    with kernels.patched(rec, ('bond_ops', 'mps', 'mpo')), kernels.patched_abs(rec), krylov_kernels.patched(rec):
+        return apply_op_real(pool, op)
+
+
+def apply_op_real(pool, op):
+    """the real pytenet calls of one op (kernels as they are: patched by the caller or the real ones)"""
     import pytenet as ptn
     h = op['h']
-    with kernels.patched(rec, ('bond_ops', 'mps', 'mpo')), kernels.patched_abs(rec), krylov_kernels.patched(rec):
+    if True:
         if h == 'from_vector':
             pool.append(ptn.MPS.from_vector(op['d'], op['nsites'], np.array(op['v']), tol=op['tol']))
             return []
